@@ -561,3 +561,7 @@ def units(tier):
         for i in range(k):
             us.append({'name': 'gen-%s-%d' % (which, i), 'fn': 'unit_generated', 'kwargs': {'which': which, 'n': n if q else n * 50}})
     return us
+
+
+# dimensions added after the fourth and fifth round of seeded changes (DESIGN.md 8.3, 8.4); part of the rule reported in the evidence
+RULE += ' Added with the fourth and fifth round of seeded changes: integer-typed means for CenterOn (same / narrower integer arrays, int64, Python int); explicit frame_2 naming the same samples as frame_1; a sibling combination preprocess of another operator created before use.'
